@@ -323,7 +323,7 @@ func c11prop(r *simkit.Run) {
 		}
 	}
 
-	nops := rapid.IntRange(4, 60).Draw(rt, "ops")
+	nops := rapid.IntRange(4, deep(60, 200)).Draw(rt, "ops")
 	for i := 0; i < nops; i++ {
 		s := sess[rapid.IntRange(0, nsess-1).Draw(rt, "session")]
 		switch rapid.SampledFrom([]string{"req", "req", "req", "req", "corrupt", "pool", "pool", "advance"}).Draw(rt, "op") {
